@@ -3855,6 +3855,13 @@ PPL::Polyhedron::topological_closure_assign() {
   // Use constraints only if they are available and
   // there are no pending generators.
   if (!has_pending_generators() && constraints_are_up_to_date()) {
+    // The closure of an empty polyhedron is empty: this has to be detected
+    // beforehand, since relaxing the strict inequalities of an
+    // unsatisfiable constraint system may make it satisfiable.
+    if (!constraints_are_minimized() && is_empty()) {
+      return;
+    }
+
     bool changed = false;
 
     // Transform all strict inequalities into non-strict ones.
